@@ -42,6 +42,8 @@ type TransferPlan struct {
 	MagnetTiers  [][]string `json:"magnet_tiers,omitempty"`
 	// DiskWriteLatMax stretches the window in which a piece write is in flight.
 	DiskWriteLatMax time.Duration `json:"disk_write_lat_max,omitempty"`
+	// WriteErrAt: the n-th data write (counted over the run) fails with ENOSPC before FaultsStop.
+	WriteErrAt []int `json:"write_err_at,omitempty"`
 	// FaultsStop: after this instant no new faults are injected and byzantine peers are shut
 	// down; the liveness bound is counted from here.
 	FaultsStop time.Duration `json:"faults_stop"`
@@ -75,6 +77,78 @@ type transferWorld struct {
 	complete    bool
 	completeAt  time.Duration
 	padOpened   bool
+}
+
+// dupTracker: C09 "simultaneous downloads of one piece stay within the end-game limit", judged on
+// the wire: a peer counts as a download of piece X while the SUT has outstanding, un-cancelled
+// block requests for X at it. Cancels/closes still in flight from the SUT are excluded by
+// demanding that each counted peer has read everything the SUT wrote (SutCaughtUp).
+type dupTracker struct {
+	mu    sync.Mutex
+	limit int
+	act   map[*refbt.Peer]dupEntry
+}
+type dupEntry struct {
+	piece int
+	since time.Duration
+}
+
+func (d *dupTracker) onActive(p *refbt.Peer, piece int, on bool) {
+	d.mu.Lock()
+	defer d.mu.Unlock()
+	if !on {
+		delete(d.act, p)
+		return
+	}
+	now := simrt.Now()
+	d.act[p] = dupEntry{piece, now}
+	n := 0
+	for _, e := range d.act {
+		if e.piece == piece {
+			n++
+		}
+	}
+	simrt.Count(fmt.Sprintf("probe.dup.concurrent_%d", min(n, 5)), 1)
+	if n > d.limit {
+		go d.recheck(piece, now)
+	}
+}
+
+func (d *dupTracker) sustained(piece int, t0 time.Duration) []*refbt.Peer {
+	d.mu.Lock()
+	var cand []*refbt.Peer
+	for q, e := range d.act {
+		if e.piece == piece && e.since <= t0 {
+			cand = append(cand, q)
+		}
+	}
+	d.mu.Unlock()
+	var out []*refbt.Peer
+	for _, q := range cand {
+		if q.SutCaughtUp() {
+			out = append(out, q)
+		}
+	}
+	return out
+}
+
+func (d *dupTracker) recheck(piece int, t0 time.Duration) {
+	time.Sleep(2 * time.Second)
+	a := d.sustained(piece, t0)
+	if len(a) <= d.limit {
+		return
+	}
+	time.Sleep(300 * time.Millisecond)
+	b := d.sustained(piece, t0)
+	if len(b) <= d.limit {
+		return
+	}
+	var names []string
+	for _, q := range b {
+		names = append(names, q.Name)
+	}
+	sort.Strings(names)
+	simrt.Violate("C09", "duplicate.limit", "piece %d: the SUT keeps block requests outstanding at %d peers at once (%v) for more than 2s, end-game duplicate limit is %d", piece, len(b), names, d.limit)
 }
 
 func padPaths(t *gen.Torrent, dir string) map[string]bool {
@@ -252,6 +326,25 @@ func RunTransfer(env *Env, plan *TransferPlan) {
 			}
 		}
 	}
+	if len(plan.WriteErrAt) > 0 {
+		errAt := map[int]bool{}
+		for _, n := range plan.WriteErrAt {
+			errAt[n] = true
+		}
+		nw := 0
+		fs.OnWrite = func(ev *simfs.WriteEvent) simfs.Fault {
+			if ev.Phase != "begin" || !strings.HasPrefix(ev.Path, w.dir+"/") {
+				return simfs.Fault{}
+			}
+			nw++
+			if errAt[nw] && simrt.Now() < plan.FaultsStop {
+				simrt.Count("fault.disk.write_error", 1)
+				simrt.Logf("inject write error at data write #%d (%s@%d)", nw, ev.Path, ev.Off)
+				return simfs.Fault{Err: fmt.Errorf("no space left on device")}
+			}
+			return simfs.Fault{}
+		}
+	}
 	installDiskOracle(fs, T, w.dir, func(ev *simfs.WriteEvent, fi int) {
 		w.mu.Lock()
 		w.writesBegun++
@@ -259,8 +352,10 @@ func RunTransfer(env *Env, plan *TransferPlan) {
 	})
 
 	lim := refbt.Limits{MaxRequestsOut: sut.Cfg.MaxRequestsOut, DefaultRequestsOut: sut.Cfg.DefaultRequestsOut}
+	dup := &dupTracker{limit: max(1, sut.Cfg.EndgameMaxDuplicateDownloads), act: map[*refbt.Peer]dupEntry{}}
 	hooks := func(a *PeerActor) refbt.Hooks {
 		return refbt.Hooks{
+			OnActive: dup.onActive,
 			OnHave: func(p *refbt.Peer, i int) { checkClaim(fs, w.dir, T, i, "have/bitfield to "+p.Name) },
 			OnRequest: func(p *refbt.Peer, r refbt.Req) {
 				w.mu.Lock()
